@@ -1,20 +1,19 @@
 /-
   `ComposeC`'s probe-aware composition once more, with the two writes that record probe evidence (`receive_ack`,
   `receive_indirect_ack`) told apart from the other probe writes: the leaf `probeQuiet` covers only writes that keep
-  or reset the evidence and keep the probe number; what the two evidence writes do is a hypothesis about the header
+  the evidence and the probe number (or drop the target); what the two evidence writes do is a hypothesis about the header
   of the datagram being handled (`RecvOk`). Generated from the `LeavesP` part of `ComposeC.lean` by a mechanical
   rewriting. Used for "a round ends without suspicion only on genuine evidence" over whole histories (C12).
 -/
 import FocaModel.Proofs.ComposeC
 namespace Foca
 
-/-- a probe write that keeps the probe number and keeps or resets the evidence -/
+/-- a probe write that keeps the probe number and keeps the evidence — or drops the target altogether -/
 def ProbeQuiet (g : Probe → Probe) : Prop :=
   ∀ p, (g p).number = p.number ∧
-    (((g p).directAckOk = p.directAckOk ∧ (g p).indirectAckCount = p.indirectAckCount) ∨
-     ((g p).directAckOk = false ∧ (g p).indirectAckCount = 0))
+    (((g p).directAckOk = p.directAckOk ∧ (g p).indirectAckCount = p.indirectAckCount) ∨ (g p).direct = none)
 
-theorem ProbeQuiet.clear : ProbeQuiet Probe.clear := fun _ => ⟨rfl, Or.inr ⟨rfl, rfl⟩⟩
+theorem ProbeQuiet.clear : ProbeQuiet Probe.clear := fun _ => ⟨rfl, Or.inr rfl⟩
 
 theorem ProbeQuiet.takeFailed : ProbeQuiet (fun p => p.takeFailed.2) := by
   intro p
@@ -25,7 +24,7 @@ theorem ProbeQuiet.takeFailed : ProbeQuiet (fun p => p.takeFailed.2) := by
     · exact Or.inl rfl
   show p.takeFailed.2.number = p.number ∧
     ((p.takeFailed.2.directAckOk = p.directAckOk ∧ p.takeFailed.2.indirectAckCount = p.indirectAckCount) ∨
-     (p.takeFailed.2.directAckOk = false ∧ p.takeFailed.2.indirectAckCount = 0))
+     p.takeFailed.2.direct = none)
   rcases h with h | h <;> rw [h] <;> exact ⟨rfl, Or.inl ⟨rfl, rfl⟩⟩
 
 structure LeavesQ (E : Env) (P : State → List Effect → Prop) (special : Effect → Bool) : Prop where
